@@ -403,8 +403,18 @@ partial def blk (j : Json) : Except String Blk := do
                overlap := gi b "overlap", previous := (b.getObjValAs? Bool "previous").toOption.getD false,
                next := (b.getObjValAs? Bool "next").toOption.getD false }
       | _ => none
+    let optExpr (k : String) : Except String (Option Expr) :=
+      match x.getObjVal? k with
+      | .ok (.arr a) => do return some (← expr (.arr a))
+      | _ => pure none
+    let names : List (List Char × List Char) := match x.getObjVal? "names" with
+      | .ok (.arr a) => a.toList.filterMap fun p => match p with
+          | .arr #[.str k, .str n] => some (k.toList, n.toList)
+          | _ => none
+      | _ => []
     let xo : InXOpts := { sortKey := (x.getObjValAs? String "sort").toOption.map String.toList,
-                          reverse := (x.getObjValAs? Bool "reverse").toOption.getD false, batch := batch }
+                          reverse := (x.getObjValAs? Bool "reverse").toOption.getD false, batch := batch,
+                          sortExpr := ← optExpr "sortExpr", reverseExpr := ← optExpr "reverseExpr", names := names }
     return .inx_ (← src a[1]!) opts xo (← blks a[4]!) (← optBlks a[5]!)
   | "with" => return .with_ (← src a[1]!) (← a[2]!.getBool?) (← a[3]!.getBool?) (← blks a[4]!)
   | "let" =>
